@@ -517,6 +517,14 @@ func classifyArg(x ast.Expr, cur, target *Lemma, pos int) string {
 		case *ast.SelectorExpr:
 			x = n.X
 			continue
+		case *ast.CallExpr:
+			// deref(q): the object a pointer component points to — a strictly smaller part of a finite tree
+			if id, ok := n.Fun.(*ast.Ident); ok && id.Name == "deref" && len(n.Args) == 1 {
+				strict = true
+				x = n.Args[0]
+				continue
+			}
+			return ""
 		case *ast.Ident:
 			if lemmaParamType(cur, n.Name) != "" {
 				if strict {
